@@ -177,6 +177,8 @@ impl<W, R, T> Runtime<W, R, T> {
                 );
             }
             if usize::from(stats.size) > max_size {
+                // the value is never created, so nothing will ever deallocate it: give the bytes back
+                stats.size -= size;
                 Err(RuntimeViolation::AllocationLimitReached)
             } else {
                 Ok(size)
